@@ -130,7 +130,67 @@ def _is_branch(t):
     return t[0] == 'call' and t[1].endswith('Try::branch') and len(t[2]) == 1
 
 
+def _h12_loop(cn, rep):
+    """the selection written as a scan: `let mut best = None; for (i, x) in crossings.iter().enumerate() { if .. { best =
+    Some((i, ..)) } }; best.map(|(i, _)| crossings.remove(i))`. None iff empty <=> an iteration entered with best = None always
+    leaves it Some; the removed index is the enumerate index of a scanned entry."""
+    from symex import apply_closure
+    hp = SymEx(cn, havoc_loops=True, max_paths=5000).run()
+    rets = [p for p in hp if p.end == 'return']
+    back = [p for p in hp if p.end == 'backedge']
+    if len(rets) != 1 or not back:
+        return None
+    r = strip(rets[0].ret)
+    if not (r[0] == 'call' and r[1].split('::')[-1] == 'map' and len(r[2]) == 2 and strip(r[2][0])[0] == 'loopvar' and strip(r[2][1])[0] == 'closure'):
+        return None
+    L = strip(r[2][0])[2]
+    entry = {}
+    for p in hp:
+        for (fid, bb, l), v in p.state.loop_entry.items():
+            if fid == 0 and strip(v)[0] != 'loopvar':
+                entry.setdefault(l, set()).add(sk(v).replace('&', '').replace('*', ''))
+    if entry.get(L) != {'Option::None{}'}:
+        raise Unknown('the running selection starts from %s' % sorted(entry.get(L, ())))
+    taken = {sk(q.ret).replace('&mut ', '').replace('&', '').replace('*', '').replace("('sel',)", 'SEL') for q in apply_closure(strip(r[2][1]), [('sel',)]) or [] if q.end == 'return'}
+    inst2 = 'TngComplexBuilder::choose_next|hands out the crossing it takes off the list'
+    if taken not in ({'remove(arg1.crossings, SEL.0)'}, {'swap_remove(arg1.crossings, SEL.0)'}):
+        raise Unknown('the selection is mapped to %s' % sorted(taken))
+    stay_none = []
+    bad_idx = []
+    for p in back:
+        fin = strip(p.mem.get((('local', L), ()), ('loopvar', 0, L)))
+        was = [e.value for e in p.branches() if strip(e.term)[0] == 'discr' and strip(strip(e.term)[1]) == ('loopvar', strip(r[2][0])[1], L)]
+        if fin[0] == 'adt' and fin[2] == 'Some' and strip(fin[4][0])[0] == 'tuple':
+            i0 = strip(strip(fin[4][0])[1][0])
+            ok_i = False
+            if i0[0] == 'field' and i0[2] == '0' and strip(i0[1])[0] == 'field' and strip(i0[1])[2] == 'Some.0':
+                nx = strip(strip(i0[1])[1])
+                if nx[0] == 'call' and nx[1].endswith('Iterator::next') and nx[2][0][0] == 'mref':
+                    src = entry.get(nx[2][0][1][0][1], set())
+                    ok_i = src == {'into_iter(enumerate(iter(deref(arg1.crossings))))'} or src == {'into_iter(enumerate(iter(arg1.crossings)))'}
+            if not ok_i:
+                bad_idx.append(sk(i0)[:80])
+        elif fin[0] == 'loopvar':
+            if not was or was[-1] != 1:
+                stay_none.append([(sk(e.term)[:60], e.value) for e in p.branches()][-3:])
+        else:
+            raise Unknown('the running selection becomes %s' % sk(fin)[:80])
+    inst1 = 'TngComplexBuilder::choose_next|None only when no crossing remains'
+    if stay_none:
+        rep.violation('E22.H1-none-iff-empty', inst1, 'choose_next can answer None while crossings remain (an iteration can leave the running selection empty: %s): process_all stops early and the remaining crossings never enter the complex' % stay_none[0], where=cn.where())
+    else:
+        rep.ok('E22.H1-none-iff-empty', inst1, 'every iteration entered with no selection makes one; the scan covers every crossing')
+    if bad_idx:
+        rep.violation('E22.H2-removed-is-returned', inst2, 'choose_next removes the entry at index %s, which is not the position of a scanned crossing' % bad_idx[0], where=cn.where())
+    else:
+        rep.ok('E22.H2-removed-is-returned', inst2, 'Some(crossings.remove(i)) with i the enumerate index of a scanned entry')
+    return 2
+
+
 def _h12(cn, rep):
+    n = _h12_loop(cn, rep)
+    if n:
+        return n
     n = 0
     for p in SymEx(cn, max_paths=5000).run():
         if p.end != 'return':
@@ -205,7 +265,8 @@ def _h4(facts, rep):
             if pl is None or not b.local_ty(pl['l']).startswith('&mut '):
                 continue
             r = resolve_place(b, pl, 0, True)
-            if not re.search(r'\(\*_1\)\.crossings\)*$', r.lstrip('&')):
+            # directly on self, or through a closure that captured `self.crossings` (edition-2021 disjoint capture) / `self`
+            if not (re.search(r'\(\*_1\)\.crossings\)*$', r.lstrip('&')) or (b.kind == 'Closure' and re.search(r'_1\._ref__self(__|\)*\.)crossings\)*$', r.lstrip('&')))):
                 continue
             st = (facts.bodies.get(root).impl or {}).get('self_ty', '') if facts.bodies.get(root) else ''
             if 'TngComplexBuilder' not in st:
